@@ -31,8 +31,10 @@
 (*                               advertised endpoint with allowed key sizes *)
 (*                               always ends Connected, write ok, read back  *)
 (*                                                                          *)
-(* Deviations the code has (Dev_* = TRUE is the as-is model):               *)
+(* Deviation the code has (Dev_* = TRUE is the as-is model):                *)
 (*   Dev_AdoptClientSecurity  server adopts policy and mode from the OPN    *)
+(*                            (open known finding, C30)                     *)
+(* Deviation the code had until commit a460b2f (now FALSE for good):        *)
 (*   Dev_IgnoreSigFailure     CreateSession logs a failed check and returns *)
 (*                            (nil, nil); ActivateSession dereferences nil  *)
 (* Demo-only deviations (never TRUE for the real code; non-vacuity):        *)
@@ -63,6 +65,9 @@ KeyMin(p) == IF p \in {"Basic128Rsa15", "Basic256"} THEN 1024 ELSE 2048
 KeyMax(p) == IF p \in {"Basic128Rsa15", "Basic256"} THEN 2048 ELSE 4096
 KeyOK(p, k) == p = "None" \/ (KeyMin(p) <= k /\ k <= KeyMax(p))
 AuthTypes == {"anon", "user"}
+\* "otherdata": a correct signature of the server over anything but (client certificate + nonce of THIS
+\* request): certificate alone, another certificate, another nonce -- including the nonce of another,
+\* overlapping CreateSession request of the same client
 SigClasses == {"valid", "corrupted", "empty", "otherkey", "otherdata"}
 
 \* A server configuration: enabled pairs, size of the server key, enabled user-token types
@@ -228,6 +233,9 @@ InvTerminalDef == Terminal <=> ~ENABLED Next
 ---------------------------------------------------------------------------
 \* C30
 InvOnlyEnabled       == chan = "open" => chanSec \in cfg.pairs
+\* a state invariant: it holds whenever and for whichever of the server's endpoint URLs the list is read
+\* (the replay reads it for two URLs, over the wire and through Server.Endpoints(), at the start and at
+\* the end of every run)
 InvAdvertisedExactly == up => {Pair(e.pol, e.mode) : e \in adv} = cfg.pairs
 \* C37: token policies
 InvTokens == up => \A e \in adv :
